@@ -1,22 +1,23 @@
 //go:build verif
 
-package scte35
+package app
 
 import (
-	"github.com/Comcast/gots/v2/scte35"
+	gots "github.com/Comcast/gots/v2/scte35"
+	"github.com/Dash-Industry-Forum/livesim2/pkg/scte35"
 	"github.com/Eyevinn/mp4ff/mp4"
 )
 
 // vParamsOf decodes the splice_info_section carried in the emsg (native side; the gots parser also verifies
 // the CRC-32). Under symbolic execution it is replaced by vStubParamsOf (the parameters handed to the stubbed
 // payload builder).
-func vParamsOf(e *mp4.EmsgBox) (p SpliceInsertParams, ok bool) {
+func vParamsOf(e *mp4.EmsgBox) (p scte35.SpliceInsertParams, ok bool) {
 	// the parser expects the PSI pointer_field in front of the section
-	s, err := scte35.NewSCTE35(append([]byte{0}, e.MessageData...))
+	s, err := gots.NewSCTE35(append([]byte{0}, e.MessageData...))
 	if err != nil {
 		return p, false
 	}
-	cmd, isInsert := s.CommandInfo().(scte35.SpliceInsertCommand)
+	cmd, isInsert := s.CommandInfo().(gots.SpliceInsertCommand)
 	if !isInsert {
 		return p, false
 	}
